@@ -36,8 +36,8 @@ def gen_abstract(rng):
     if rng.random() < 0.4:
         fields.append("pit")
     thr = sorted(rng.sample([-5.0, 0.0, 1.0, 5.0, 10.0, 20.0], rng.choice([0, 1, 2, 3, 4])))
-    qua = sorted(rng.sample([0.125, 0.25, 0.5, 0.75, 0.875], rng.choice([0, 1, 2, 3])))
-    nmem = rng.choice([0, 0, 2, 3])
+    qua = sorted(rng.sample([0.125, 0.25, 0.5, 0.75, 0.875], rng.choice([0, 1, 2, 3, 5, 5])))      # with five levels a set of floats no longer iterates in ascending order
+    nmem = rng.choice([0, 0, 1, 2, 3])      # a single member is an ensemble too
     other = ["crps"] if rng.random() < 0.3 else []
     def cube(extra=None):
         shape = (nt, nl, ns) + (() if extra is None else (extra,))
